@@ -331,3 +331,11 @@ func CSVRecords(written []byte) [][]string {
 	}
 	return recs
 }
+
+// SharedWrites is the number of mutations of package-level variables, sync.Map,
+// sync.Once seen by the engine on this path (0 natively).
+func SharedWrites() int { return 0 }
+
+// FreezeGlobals adds everything reachable from tobgu/qframe's package-level
+// variables to the frozen set (engine only).
+func FreezeGlobals() {}
